@@ -44,7 +44,7 @@ PROPS = {
     "C17": dict(fam=["trk"], mc=["trk", "dead"], inv=["Inv_C17"], step=["Step_C17"]),
     "C18": dict(fam=["dead", "dead3"], mc=["dead"], inv=["Inv_C18"], step=["Step_C18"]),
     "C19": dict(fam=["ps", "psfifo"], mc=["ps"], inv=["Inv_C19"], step=["Step_C19"]),
-    "C20": dict(fam=["exact"], mc=["exact"], inv=[], step=["Step_C20"]),
+    "C20": dict(fam=["exact", "eps"], mc=["exact"], inv=[], step=["Step_C20"]),
     "C14": dict(fam=["stopcount", "core1", "tandem", "prio", "cls", "renege", "route", "preempt"],
                 mc=["core1", "stopcount", "renegesched", "jsqsched"], inv=[], step=["Step_C14"]),
 }
